@@ -90,6 +90,47 @@ func TestRegUnknownAccountIdentity(t *testing.T) {
 	reg(t, Case{Target: "acldecode", Ins: []In{raw(1, []byte{0x0a, 0x28, 0x2a, 0x26, 0x0a, 0x22, 0x12, 0x20, 0x02, 0x66, 0x17, 0xe4, 0x93, 0xc9, 0xf5, 0x41, 0x51, 0x3c, 0x04, 0xba, 0x28, 0x4e, 0xfd, 0xec, 0xa8, 0x1d, 0xd2, 0xc5, 0xe0, 0x58, 0x17, 0x85, 0x25, 0x42, 0x81, 0xdd, 0x39, 0x5e, 0xf4, 0x9e, 0x10, 0x04})}})
 }
 
+// 068cbfd: a new-tree response without a root change dereferenced nil in ValidateRawTreeDefault.
+func TestRegNewTreeResponseWithoutRoot(t *testing.T) {
+	for fix := uint64(0); fix < 2; fix++ {
+		// treesync seeds: the last ones are the new-tree responses (variant 3); tree seeds: the new-tree payloads (variant 2)
+		var ins, ins2 []In
+		for base := 0; base < 16; base++ {
+			ins = append(ins, In{Base: base, Kind: "no-root", A: 0}, In{Base: base, Kind: "no-root", A: 1})
+			ins2 = append(ins2, In{Base: base, Kind: "no-root", A: 0}, In{Base: base, Kind: "no-root", A: 1}, In{Base: base, Kind: "bad-root", A: base})
+		}
+		reg(t, Case{Target: "treesync", Fix: fix, Ins: ins})
+		reg(t, Case{Target: "tree", Fix: fix, Ins: ins2})
+	}
+	// minimal: an object sync message whose tree message has a full sync response and nothing else
+	reg(t, Case{Target: "treesync", Ins: []In{raw(3, []byte{0x22, 0x04, 0x0a, 0x02, 0x1a, 0x00})}})
+}
+
+// 87756ad: the snappy encoding sized its buffer by the decoded length the block header claims.
+func TestRegSnappyClaimedLength(t *testing.T) {
+	var ins []In
+	for a := 0; a < 7; a++ {
+		ins = append(ins, In{Base: 0, Kind: "claimed-len", A: a}, In{Base: 1, Kind: "claimed-len", A: a, B: 3, C: 1})
+	}
+	// five bytes claiming 64 MiB, and the 4 GiB - 1 maximum of the format
+	ins = append(ins, raw(0, []byte{0x80, 0x80, 0x80, 0x20, 0x00}), raw(1, []byte{0xff, 0xff, 0xff, 0xff, 0x0f, 0x00}))
+	reg(t, Case{Target: "snappy", Ins: ins})
+}
+
+// 3baf36a: Diff / CompareDiff kept asking a remote that withholds the elements it was asked for.
+func TestRegLdiffRemoteNeverConverges(t *testing.T) {
+	var ins []In
+	for base := 0; base < 2; base++ {
+		for a := 0; a < 8; a++ {
+			ins = append(ins, In{Base: base, Kind: "never-equal", A: a, B: a}, In{Base: base, Kind: "elements-forever", A: a}, In{Base: base, Kind: "count-lies", A: a}, In{Base: base, Kind: "honest-then-lie", A: a})
+		}
+	}
+	// the 29-byte script: every round, for every range, "hash x, 88 elements, none listed"
+	script := []byte{0x0a, 0x1b, 0x01, 0x0a, 0x18, 0x0a, 0x14, 'n', 'e', 'v', 'e', 'r', '-', 'e', 'q', 'u', 'a', 'l', '-', 'h', 'a', 's', 'h', '-', '8', '-', '0', 0x18, 0x58}
+	ins = append(ins, raw(0, script), raw(1, script))
+	reg(t, Case{Target: "ldiff", Ins: ins})
+}
+
 // Harness self-check: fixtures are a function of the code (two builds give the same valid
 // messages), and every valid message is accepted by the entry point it was made for.
 func TestRegFixturesReproducibleAndValid(t *testing.T) {
@@ -107,10 +148,14 @@ func TestRegFixturesReproducibleAndValid(t *testing.T) {
 				// the template is cached per process; rebuild it from scratch for the comparison
 				treeTplMu.Lock()
 				for k, tp := range treeTpl {
-					os.RemoveAll(tp.dir)
+					if !tp.shared {
+						os.RemoveAll(tp.dir)
+					}
 					delete(treeTpl, k)
 				}
 				treeTplMu.Unlock()
+				os.Setenv("C11_PRIVATE_TEMPLATE", "1") // the second build must really be a second build
+				defer os.Unsetenv("C11_PRIVATE_TEMPLATE")
 				if name == "snappy" {
 					continue // derived from the tree template, encoded once per process
 				}
